@@ -2,6 +2,7 @@
 import ChalkModel.Wire
 import ChalkModel.Aggregate
 import ChalkModel.WfAnswer
+import ChalkModel.MakeSolution
 
 namespace Chalk
 open Sexp
@@ -61,6 +62,15 @@ def opsAggregate : Sexp → Option Sexp
       some (resBoolToSexp (mayInvalidate (← Args.ofSexp? n) (← Args.ofSexp? c)))
   | .list [.atom "merge", us, g, a] => do
       some (resToSexp canonArgsToSexp (mergeIntoGuidance (← natListOfSexp? us) (← Args.ofSexp? g) (← Args.ofSexp? a)))
+  | .list [.atom "make-solution", us, .list answers] => do
+      -- answers: (binders subst (constraints) ambiguous)
+      let as ← answers.mapM fun
+        | .list [bs, s, .list cs, amb] => do
+            some (⟨← bindersOfSexp? bs, ← Args.ofSexp? s, ← cs.mapM Constraint.ofSexp?, ← bool? amb⟩ : CAnswer)
+        | _ => none
+      some (resToSexp (fun o => match o with
+        | none => .atom "none"
+        | some sol => sol.toSexp) (makeSolution (← natListOfSexp? us) as))
   | .list [.atom "is-trivial", s] => do
       some (.list [.atom "ok", sBool (isTrivial (← Args.ofSexp? s))])
   | .list [.atom "combine", a, b] => do
